@@ -18,6 +18,44 @@ ENABLED_FEATURES = {'compress', 'flate2', 'charsets', 'multipart-form', 'json', 
                     'mime', 'mime_guess', 'rand', 'serde', 'serde_json', 'serde_urlencoded'}
 
 
+def cfg_eval(inner):
+    """inner: canonical token string of an attribute body starting with `cfg ( ... )`; True/False, or None if not a cfg"""
+    toks = inner.split(' ')
+    if not toks or toks[0] != 'cfg':
+        return None
+    pos = [1]
+
+    def expr():
+        tk = toks[pos[0]]
+        if tk in ('not', 'all', 'any'):
+            pos[0] += 1
+            assert toks[pos[0]] == '('
+            pos[0] += 1
+            vals = []
+            while toks[pos[0]] != ')':
+                vals.append(expr())
+                if toks[pos[0]] == ',':
+                    pos[0] += 1
+            pos[0] += 1
+            if tk == 'not':
+                return not vals[0]
+            return all(vals) if tk == 'all' else any(vals)
+        if tk == 'feature':
+            assert toks[pos[0] + 1] == '='
+            name = toks[pos[0] + 2].strip('"')
+            pos[0] += 3
+            return name in ENABLED_FEATURES
+        pos[0] += 1
+        if tk in ('unix',):
+            return True
+        if tk in ('test', 'windows', 'kani', 'debug_assertions'):
+            return False
+        raise GenError('unknown cfg predicate %s' % tk)
+    assert toks[1] == '('
+    pos[0] = 2
+    return expr()
+
+
 class GenError(Exception):
     """lost anchor / unsupported construct: undecided (exit 2), never a violation"""
 
@@ -122,10 +160,7 @@ def r0_drop(text, log):
             if head in ('inline', 'derive', 'allow', 'doc', 'must_use', 'deprecated'):
                 drop = True
             elif head == 'cfg':
-                m = re.fullmatch(r'cfg \( feature = "([^"]+)" \)', inner)
-                if m and m.group(1) in ENABLED_FEATURES:
-                    drop = True
-                elif inner in ('cfg ( unix )', 'cfg ( not ( windows ) )'):
+                if cfg_eval(inner) is True:
                     drop = True
             if drop:
                 a = s[i].start
@@ -171,12 +206,7 @@ def r0_drop_disabled_cfg(text, log):
             if t.text == '#' and i + 1 < len(s) and s[i + 1].text == '[':
                 end = find_matching(text, s[i + 1].start)
                 inner = strip_ws(text[s[i + 1].start + 1:end - 1])
-                m = re.fullmatch(r'cfg \( not \( feature = "([^"]+)" \) \)', inner)
-                dis = (m and m.group(1) in ENABLED_FEATURES) or inner in ('cfg ( test )', 'cfg ( windows )')
-                m2 = re.fullmatch(r'cfg \( feature = "([^"]+)" \)', inner)
-                if m2 and m2.group(1) not in ENABLED_FEATURES:
-                    dis = True
-                if not dis:
+                if not inner.startswith('cfg (') or cfg_eval(inner) is not False:
                     continue
                 # annotated thing: up to the matching end: next ';' or ',' at depth 0, or a '{...}' block (+ optional ',')
                 j = next(k for k, u in enumerate(s) if u.start >= end)
@@ -356,6 +386,9 @@ def parse_template(path):
                     elif w[0] == 'closure':
                         cur_rw = {'rule': 'R5c', 'ordinal': int(w[1][1:]) if len(w) > 1 and w[1].startswith('#') else None}
                         mode = 'rw_old'
+                    elif w[0] == 'block':
+                        cur_rw = {'rule': w[1] + 'b', 'ordinal': int(w[2][1:]) if len(w) > 2 and w[2].startswith('#') else None}
+                        mode = 'rw_old'
                     elif w[0] == '=>':
                         mode = 'rw_new'
                     elif w[0] == 'splice':
@@ -416,7 +449,7 @@ def locate(rel, kind, selector, name, attr=None):
         pre = src[it.attrs_start:it.start]
         if attr is not None and strip_ws(attr.replace('~', ' ')) not in strip_ws(pre):
             continue
-        if attr is None and re.search(r'cfg\s*\(\s*(test|not\s*\(\s*feature\s*=\s*"(%s)"\s*\))' % '|'.join(ENABLED_FEATURES), pre):
+        if attr is None and _cfg_disabled(pre):
             continue
         hits.append(it)
     if len(hits) != 1:
@@ -424,10 +457,36 @@ def locate(rel, kind, selector, name, attr=None):
     return src, hits[0]
 
 
+def _cfg_disabled(pre):
+    s = sig(lex(pre))
+    for i, tk in enumerate(s):
+        if tk.text == '#' and i + 1 < len(s) and s[i + 1].text == '[':
+            end = find_matching(pre, s[i + 1].start)
+            inner = strip_ws(pre[s[i + 1].start + 1:end - 1])
+            if inner.startswith('cfg (') and cfg_eval(inner) is False:
+                return True
+    return False
+
+
 def apply_rws(text, d, log):
     for rw in d.rws:
         a, b = find_span(text, rw['old'], rw['ordinal'], 'rewrite site (%s)' % rw['rule'])
         new = rw['new'].strip('\n')
+        if rw['rule'].endswith('b') and rw['rule'] != 'R5c' and '@@BODY' in new:
+            # block rewrite: anchor is a block header (`for .. in ..`, `match ..`); the `{..}` block that follows it is @@BODY
+            j = b
+            while text[j] in ' \t\r\n':
+                j += 1
+            if text[j] != '{':
+                raise GenError('block rewrite: no block after %r' % rw['old'].strip()[:60])
+            end = find_matching(text, j)
+            inner = text[j + 1:end - 1]
+            pre, suf = new.strip().split('@@BODY')
+            pre_m = '\n'.join((l + GHOST_MARK) if l.strip() else l for l in pre.split('\n'))
+            suf_m = '\n'.join((l + GHOST_MARK) if l.strip() else l for l in suf.split('\n'))
+            log.append((rw['rule'], strip_ws(text[a:b]), strip_ws(pre), strip_ws(suf), strip_ws(inner)))
+            text = text[:a] + pre_m + '\n' + inner.strip('\n') + '\n' + suf_m + text[end:]
+            continue
         if rw['rule'] == 'R5c':
             # closure header annotation: wrap the (verbatim) closure body in a block after the new header
             stop = closure_body_end(text, b)
@@ -567,6 +626,13 @@ def erasure_check(gen_text, meta):
     canon = strip_ws(t)
     for ent in reversed(meta['rules']):
         rule, old, new = ent[0], ent[1], ent[2]
+        if len(ent) == 5:
+            inner = ent[4]
+            k = canon.find(inner)
+            if k < 0:
+                return False, 'cannot invert block rewrite %s' % old[:60]
+            canon = canon[:k] + old + ' { ' + inner + ' }' + canon[k + len(inner):]
+            continue
         if rule == 'R5c':
             n = new
             k = canon.find(n)
